@@ -612,3 +612,23 @@ pub fn t_rangec(a: u64, b: u64, c: u64) -> bool {
 	let r = (a % 100)..(b % 100);
 	r.contains(&(c % 100))
 }
+// ---- phase 5: `&self` methods of an enum (the enum value is the first parameter), called on a field of enum type
+impl Kf {
+	pub fn is_nrd(&self) -> bool {
+		match self {
+			Kf::Nrd { .. } => true,
+			_ => false,
+		}
+	}
+	pub fn weight(&self, base: u64) -> u64 {
+		match self {
+			Kf::Locked { lock, .. } => *lock + base,
+			Kf::Plain { fee } => *fee,
+			_ => base,
+		}
+	}
+}
+pub fn h_kfm(ks: &[Kern], base: u64) -> u64 {
+	let n = ks.iter().filter(|k| k.features.is_nrd()).count() as u64;
+	ks.iter().map(|k| k.features.weight(base)).sum::<u64>() + n
+}
